@@ -33,12 +33,13 @@ RULE = (
 COMPONENTS = COMPONENTS_AIO
 ASSUMPTIONS = [
     "the lock is the SimLock stub on the token loop and the real asyncio.Lock on backend B (a quarter of the runs)",
-    "a cancelled consumer closes its own child (owner cleans up); an abandoned child stays live and is a lagging child",
+    "a cancelled consumer closes its own child, or lets go of it: then the child is finished if the cancellation "
+    "passed through its __anext__ (the iterator raised) and a lagging live child otherwise; an abandoned child stays live",
     "the delivery log of the instrumented source is the ground truth for 'the source's items'",
 ]
 PROBES = ("waiter_found_item_after_lock", "item_fetched_while_sibling_waits", "cancel_inside_source",
           "cancel_at_lock_wait", "cancel_between_items", "child_closed_early", "child_abandoned",
-          "lock_contended", "no_lock", "all_children_exhausted")
+          "lock_contended", "no_lock", "all_children_exhausted", "cancelled_child_left_unclosed")
 
 
 class Prog:
@@ -83,6 +84,10 @@ def gen(ch):
     sc.cancel = None
     if ch.chance(1, 3):
         sc.cancel = ch.draw(sc.n)
+    # a cancelled consumer either closes its child on the way out or just lets go of it
+    sc.cancel_closes = not ch.chance(1, 3)
+    # a lock object may well test false (say, __len__ = number of waiters): it is a lock all the same
+    sc.lock_falsy = bool(sc.lock) and ch.chance(1, 4)
     # backend B: the real asyncio.Lock and Task.cancel() (only meaningful with a lock)
     sc.backend = pick_backend(ch, 1, 4)
     return sc
@@ -114,7 +119,9 @@ async def consumer(ci, child, prog, st, sim):
         n = 0
         while prog.take is None or n < prog.take:
             try:
+                st.in_next[ci] = True
                 item = await child.__anext__()
+                st.in_next[ci] = False
             except StopAsyncIteration:
                 st.finished[ci] = "stop"
                 st.done[ci] = True
@@ -128,6 +135,7 @@ async def consumer(ci, child, prog, st, sim):
                 await sim.suspend(PAUSE, None, "consumer")
         else:
             if prog.then == "close":
+                st.in_next[ci] = True  # a cancellation from here on passes through the child's aclose
                 await child.aclose()
                 st.done[ci] = True
                 st.finished[ci] = "closed"
@@ -136,10 +144,19 @@ async def consumer(ci, child, prog, st, sim):
                 st.finished[ci] = "abandoned"
     except CANCEL as cancel:
         st.finished[ci] = "cancelled"
-        try:
-            await child.aclose()
-        finally:
+        if st.cancel_closes:
+            try:
+                await child.aclose()
+            finally:
+                st.done[ci] = True
+        elif st.in_next[ci]:
+            # the cancellation went through the child's own __anext__ / aclose: that iterator has raised and is finished
             st.done[ci] = True
+            st.probes["cancelled_child_left_unclosed"] = 1
+        else:
+            # cancelled between two items and never closed: a lagging child like an abandoned one
+            st.finished[ci] = "cancelled-abandoned"
+        del child
         # the traceback of the cancellation keeps the dead child's frame (and its buffer) alive:
         # that is the interpreter's doing, not the tee's
         traceback.clear_frames(cancel.__traceback__)
@@ -169,7 +186,10 @@ def execute(st_, ctx):
     src = make_async_source(world, sc.src)
     lock = None
     if sc.lock:
-        lock = make_lock(sim, sc.lock_policy, sc.lock_acq_susp, sc.lock_rel_susp)()
+        lock_type = make_lock(sim, sc.lock_policy, sc.lock_acq_susp, sc.lock_rel_susp)
+        if sc.lock_falsy:
+            lock_type = type("FalsyLock", (lock_type,), {"__bool__": lambda self: False})
+        lock = lock_type()
     handle = lib().tee(src.obj, sc.n, lock=lock) if lock is not None else lib().tee(src.obj, sc.n)
     st = State()
     st.n = sc.n
@@ -180,6 +200,9 @@ def execute(st_, ctx):
     st.finished = [None] * sc.n
     st.errors = []
     st.retention = None
+    st.in_next = [False] * sc.n
+    st.cancel_closes = sc.cancel_closes
+    st.probes = out.probes
     tasks = []
     for ci in range(sc.n):
         tasks.append(sim.spawn(consumer(ci, handle[ci], sc.progs[ci], st, sim), "c%d" % ci))
@@ -202,7 +225,8 @@ def execute(st_, ctx):
 
     def describe():
         return {"backend": sc.backend, "children": sc.n, "lock": bool(sc.lock),
-                "lock_policy": [sc.lock_policy, sc.lock_acq_susp, sc.lock_rel_susp],
+                "lock_policy": [sc.lock_policy, sc.lock_acq_susp, sc.lock_rel_susp], "lock_tests_false": sc.lock_falsy,
+                "cancelled_consumer_closes_child": sc.cancel_closes,
                 "source": sc.src.describe(),
                 "programs": [{"take": p.take, "then": p.then, "pauses": p.pauses} for p in sc.progs],
                 "cancel": {"consumer": sc.cancel, "fired_at": sim.cancel_fired_at} if sc.cancel is not None else None,
@@ -289,7 +313,7 @@ def execute(st_, ctx):
     if all(f == "stop" for f in st.finished):
         out.probes["all_children_exhausted"] = 1
     out.nontrivial = src.delivered >= 2 and sum(1 for y in st.yields if y) >= 2
-    out.shape = (sc.backend, sc.n, bool(sc.lock), sc.src.flavour, len(sc.src.items), sc.src.suspend,
+    out.shape = (sc.backend, sc.n, bool(sc.lock), sc.lock_falsy, sc.cancel_closes if sc.cancel is not None else None, sc.src.flavour, len(sc.src.items), sc.src.suspend,
                  tuple((p.take, p.then, tuple(p.pauses)) for p in sc.progs), sc.cancel,
                  hash(tuple(sim.trace)))
     if ctx.want_sample:
